@@ -34,3 +34,4 @@ func IsNonNilPointer(v any) bool                   { return false }
 func At(pos string)                                {}
 func HashSum(kind string, data []byte) []byte      { return nil }
 func Reach(label string)                           {}
+func Bound(name string, quick int) int              { return quick }
